@@ -240,6 +240,39 @@ func (r *Runner) loopEnter(st *State, f *Frame, hdr *ssa.BasicBlock) {
 	}
 	r.autoInvariants(st, f, hdr)
 	f.loops[hdr.Index] = lr
+	// locks held across the loop head: the head becomes the reference point of two-state clauses
+	for k := range st.held {
+		if st.lockSnap != nil && st.lockSnap[k] != nil {
+			st.lockSnap[k] = r.shadow(st)
+		}
+	}
+}
+
+// stableAtCut: two-state lock invariants must hold for the segment that ends at a loop back edge
+// (they are required to be transitive, so segments compose).
+func (r *Runner) stableAtCut(st *State, pos token.Pos) {
+	for key := range st.held {
+		p := st.heldPlace[key]
+		snap := st.lockSnap[key]
+		if p == nil || snap == nil || st.held[key] != "w" {
+			continue
+		}
+		owner, mu := r.lockOwner(p)
+		if owner == nil {
+			continue
+		}
+		ts := r.typeSpecOf(owner.Root)
+		if ts == nil {
+			continue
+		}
+		self := Val{T: types.NewPointer(owner.Root), C: []Term{r.interiorID(st, owner)}, P: owner}
+		for _, c := range ts.Stable[mu] {
+			env := r.newEnv(st, r.pkgByPath(ts.Pkg))
+			env.vars["self"] = self
+			env.old = snap
+			r.oblige(st, "stable", shortType(owner.Root)+"."+c.Label, env.EvalBool(c.E, st), pos)
+		}
+	}
 }
 
 // autoInvariants: facts about compiler-generated range loops that hold by construction.
@@ -335,6 +368,7 @@ func (r *Runner) summarise(st *State, f *Frame, hdr *ssa.BasicBlock, body map[in
 }
 
 func (r *Runner) loopBackEdge(st *State, f *Frame, hdr *ssa.BasicBlock, lr *loopRun) {
+	r.stableAtCut(st, hdr.Instrs[0].Pos())
 	ls := r.loopSpecFor(f, hdr)
 	if ls == nil {
 		return
